@@ -11,9 +11,10 @@ from .. import formula as F
 SEP = '<,>'
 STYLES = (',', ';', '\\')
 
-# delivery-channel differential (core.Env): of every 2 evaluations that bind variables, one is repeated with the
-# values handed in by the cell/range listeners and one with the values returned by custom functions; outcomes must agree
-CHANNELS = 2
+# delivery-channel and host-type differential (core.Env): of every 3 evaluations that bind variables, one is repeated with the
+# values handed in by the cell/range listeners, one with the values returned by custom functions and one with every value an
+# instance of a trivial subclass of its type (numpy.float64, IntEnum, rich-text str ... are such); outcomes must agree
+CHANNELS = 3
 
 BOUNDS = {
     'quick': 'digit strings of length 1..3, int.frac with integer part 0..2 and fraction 1..2 digits, n% for n<1000, a^b '
